@@ -31,6 +31,8 @@ type scenario struct {
 	Phase         string `json:"phase,omitempty"`  // idle | at-backend
 	BackendMs     int    `json:"backend_ms,omitempty"`
 	SignalAfterMs int    `json:"signal_after_ms,omitempty"` // after the request reached the backend (or after start when idle)
+	Second        string `json:"second_signal,omitempty"`          // a second signal (INT | TERM) ...
+	SecondAfterMs int    `json:"second_signal_after_ms,omitempty"` // ... this long after the first one
 	ListFault     string `json:"list_fault,omitempty"`      // "503": how the list call in flight at the signal ends (default: empty list). A dropped connection is not used: net/http re-sends an idempotent GET on its own, which the fake proxy cannot tell from a new poll
 }
 
@@ -228,6 +230,16 @@ func runScenario(agentBin string, sc scenario) result {
 		mu.Unlock()
 		cmd.Process.Signal(sig)
 		close(signalled)
+		if sc.Second != "" {
+			go func() {
+				time.Sleep(time.Duration(sc.SecondAfterMs) * time.Millisecond)
+				sig2 := syscall.SIGINT
+				if sc.Second == "TERM" {
+					sig2 = syscall.SIGTERM
+				}
+				cmd.Process.Signal(sig2)
+			}()
+		}
 		limit = time.Duration(sc.GraceMs+3000) * time.Millisecond
 	case "unhealthy", "gate":
 		limit = time.Duration(len(sc.Checks)+3) * time.Second
@@ -284,6 +296,8 @@ func main() {
 			scenario{Name: "graceful-off-at-backend-" + sig, Kind: "graceful", GraceMs: 0, Signal: sig, Phase: "at-backend", BackendMs: 1500, SignalAfterMs: 200},
 			scenario{Name: "signal-while-waiting-for-health-" + sig, Kind: "graceful", GraceMs: 0, Signal: sig, Phase: "health-wait", SignalAfterMs: 1500, Checks: []bool{F, F, F, F, F, F, F, F, F, F, F, F}, Threshold: 2},
 			scenario{Name: "signal-while-waiting-for-health-grace-1s-" + sig, Kind: "graceful", GraceMs: 1000, Signal: sig, Phase: "health-wait", SignalAfterMs: 1500, Checks: []bool{F, F, F, F, T}, Threshold: 2},
+			scenario{Name: "graceful-3s-backend-finishes-second-signal-" + sig, Kind: "graceful", GraceMs: 3000, Signal: sig, Phase: "at-backend", BackendMs: 1500, SignalAfterMs: 200, Second: map[string]string{"INT": "TERM", "TERM": "TERM"}[sig], SecondAfterMs: 500},
+			scenario{Name: "graceful-2s-idle-second-signal-" + sig, Kind: "graceful", GraceMs: 2000, Signal: sig, Phase: "idle", SignalAfterMs: 700, Second: "INT", SecondAfterMs: 300},
 			scenario{Name: "graceful-2s-idle-list-503-" + sig, Kind: "graceful", GraceMs: 2000, Signal: sig, Phase: "idle", SignalAfterMs: 700, ListFault: "503"},
 			scenario{Name: "graceful-3s-backend-list-503-" + sig, Kind: "graceful", GraceMs: 3000, Signal: sig, Phase: "at-backend", BackendMs: 1200, SignalAfterMs: 200, ListFault: "503"},
 		)
